@@ -150,6 +150,20 @@ Section Behave.
     fold_right (apply_tag s) f chain.
 End Behave.
 
+(* try_value over a history of calls: the caller mutates every fallback it is handed.  [copying] = the wrapper returns
+   copy(self.value) (the code) rather than self.value itself (then the caller's mutation hits the stored object) *)
+Section TryHist.
+  Context {R : Type}.
+  Variable copying : bool.
+  Variable mut : R -> R.
+  Fixpoint try_hist (stored : R) (outs : list (lres R)) : list R :=
+    match outs with
+    | [] => []
+    | LOk r :: outs' => r :: try_hist stored outs'
+    | LErr _ :: outs' => stored :: try_hist (if copying then stored else mut stored) outs'
+    end.
+End TryHist.
+
 (* ------------------------------------------------------------------ cache as a state machine *)
 Section Cache.
   Context {C K R : Type}.
